@@ -220,6 +220,10 @@ package filters
 //@ panics nothing
 //@ assigns alloc S$Val, alloc M$has$Val$Bool, alloc M$val$Val$Bool
 //@ loop 1 invariant fresh: freshOrNil(result) && sameold("S$Val")
+//@ loop 1 invariant noneSeenYet: forall(k, "Val", has(seenMap, k) ==> _i > 0)
+//@ loop 1 invariant kept: len(result) <= _i && (_i > 0 ==> len(result) > 0 && result[0] == a[0])
+//@ ensures bounded: len(result) <= len(a)
+//@ ensures firstKept: len(a) > 0 ==> len(result) > 0 && result[0] == a[0]
 
 // split: trailing empty pieces are dropped (the result never ends with "")
 //@ func filters.splitFilter
